@@ -31,7 +31,6 @@ type Client struct {
 	*http.Client
 	krb5Client *client.Client
 	spn        string
-	reqs       []*http.Request
 }
 
 type redirectErr struct {
@@ -75,6 +74,11 @@ func NewClient(krb5Cl *client.Client, httpCl *http.Client, spn string) *Client {
 
 // Do is the SPNEGO enabled HTTP client's equivalent of the http.Client's Do method.
 func (c *Client) Do(req *http.Request) (resp *http.Response, err error) {
+	return c.do(req, 0)
+}
+
+// do performs the request. redirects counts the redirects followed so far for the caller's request.
+func (c *Client) do(req *http.Request, redirects int) (resp *http.Response, err error) {
 	var body []byte
 	if req.Body != nil {
 		// Read the whole body up front so that it can be sent again in full if the server challenges or
@@ -92,15 +96,15 @@ func (c *Client) Do(req *http.Request) (resp *http.Response, err error) {
 			if e, ok := ue.Err.(redirectErr); ok {
 				// Picked up a redirect
 				e.reqTarget.Header.Del(HTTPHeaderAuthRequest)
-				c.reqs = append(c.reqs, e.reqTarget)
-				if len(c.reqs) >= 10 {
+				redirects++
+				if redirects >= 10 {
 					return resp, errors.New("stopped after 10 redirects")
 				}
 				if req.Body != nil {
 					// Refresh the body reader so the body can be sent again
 					e.reqTarget.Body = io.NopCloser(bytes.NewReader(body))
 				}
-				return c.Do(e.reqTarget)
+				return c.do(e.reqTarget, redirects)
 			}
 		}
 		return resp, err
@@ -121,7 +125,7 @@ func (c *Client) Do(req *http.Request) (resp *http.Response, err error) {
 		}
 		io.Copy(io.Discard, resp.Body)
 		resp.Body.Close()
-		return c.Do(req)
+		return c.do(req, redirects)
 	}
 	return resp, err
 }
